@@ -106,6 +106,49 @@ IDENTITY_FUNCS = {"numpy.asarray", "numpy.asanyarray", "numpy.atleast_1d", "nump
                   "numpy.reshape", "numpy.transpose", "numpy.ascontiguousarray"}
 VIEW_METHODS = {"reshape", "ravel", "view", "squeeze", "transpose", "swapaxes", "T"}
 COPY_METHODS = {"copy", "astype", "flatten", "tolist"}
+
+
+def _kw_false_or_unknown(call: ast.Call, name: str) -> bool:
+    """keyword `name` is given and is not the literal True: the call may hand back its argument instead of a new array"""
+    for k in call.keywords:
+        if k.arg == name:
+            return not (isinstance(k.value, ast.Constant) and k.value.value is True)
+        if k.arg is None:
+            return True  # **options: unknown
+    return False
+
+
+def copies_name(external_name, v: ast.AST, name: str) -> bool:
+    """`v` is a new array / deep copy made from the plain name `name`"""
+    src = fresh_copy_source(external_name, v)
+    if isinstance(src, ast.Name) and src.id == name:
+        return True
+    return isinstance(v, ast.Call) and (external_name(v) or "") == "copy.deepcopy" and bool(v.args) and isinstance(v.args[0], ast.Name) and v.args[0].id == name
+
+
+def fresh_copy_source(external_name, v: ast.AST) -> Optional[ast.expr]:
+    """The one definition of "a new array holding the values of an existing one", shared by every rule that asks whether
+    a working copy / stored copy is *fresh* (writes to it cannot reach the original).  Returns the copied expression for
+
+        X.copy(...)   X.flatten(...)   X.astype(T) / X.astype(T, copy=True)
+        numpy.copy(X, ...)   numpy.array(X, ...) unless copy is given and is not the literal True
+
+    and None for everything that may alias X: asarray / asanyarray / ascontiguousarray / atleast_nd / reshape / ravel /
+    view / squeeze / transpose / slices, `numpy.array(X, copy=False)`, `X.astype(T, copy=False)`.
+    `external_name(call)` resolves a call to its dotted library name (or None)."""
+    if not isinstance(v, ast.Call):
+        return None
+    f = v.func
+    if isinstance(f, ast.Attribute) and f.attr in ("copy", "flatten") and not (external_name(v) or "").startswith(("numpy.", "copy.")):
+        return f.value
+    if isinstance(f, ast.Attribute) and f.attr == "astype" and len(v.args) <= 1 and not _kw_false_or_unknown(v, "copy"):
+        return f.value
+    ext = external_name(v) or ""
+    if ext == "numpy.copy" and v.args and not isinstance(v.args[0], ast.Starred):
+        return v.args[0]
+    if ext == "numpy.array" and v.args and not isinstance(v.args[0], ast.Starred) and not _kw_false_or_unknown(v, "copy") and len(v.args) <= 2:
+        return v.args[0]
+    return None
 SCALAR_FUNCS = {"builtins.len", "builtins.int", "builtins.float", "builtins.bool", "builtins.str", "builtins.isinstance", "builtins.getattr",
                 "builtins.sum", "builtins.max", "builtins.min", "builtins.abs", "builtins.round", "builtins.sorted", "builtins.range",
                 "builtins.enumerate", "builtins.zip", "builtins.hasattr", "builtins.type", "builtins.repr", "builtins.callable"}
@@ -233,9 +276,7 @@ class Freshness:
             if n.kind == "stmt" and isinstance(n.stmt, ast.Return) and isinstance(n.stmt.value, ast.IfExp):
                 # conditional-expression spelling: `return p.copy() if isinstance(p, ndarray) else p`
                 for (v, facts) in _leaves(n.stmt.value, []):
-                    if isinstance(v, ast.Call) and isinstance(v.func, ast.Attribute) and v.func.attr == "copy" and isinstance(v.func.value, ast.Name) and v.func.value.id == p:
-                        copies = True
-                    elif isinstance(v, ast.Call) and self.ctx.res.external_name(fi, v) in ("numpy.array", "numpy.copy", "copy.deepcopy") and v.args and isinstance(v.args[0], ast.Name) and v.args[0].id == p:
+                    if copies_name(lambda c_: self.ctx.res.external_name(fi, c_), v, p):
                         copies = True
                     elif isinstance(v, ast.Constant):
                         pass
@@ -251,10 +292,7 @@ class Freshness:
                 continue
             if n.kind == "stmt" and isinstance(n.stmt, ast.Return) and n.stmt.value is not None:
                 v = n.stmt.value
-                if isinstance(v, ast.Call) and isinstance(v.func, ast.Attribute) and v.func.attr == "copy" and isinstance(v.func.value, ast.Name) and v.func.value.id == p:
-                    copies = True
-                    continue
-                if isinstance(v, ast.Call) and self.ctx.res.external_name(fi, v) in ("numpy.array", "numpy.copy", "copy.deepcopy") and v.args and isinstance(v.args[0], ast.Name) and v.args[0].id == p:
+                if copies_name(lambda c_: self.ctx.res.external_name(fi, c_), v, p):
                     copies = True
                     continue
                 if isinstance(v, ast.Name) and v.id == p:
@@ -281,10 +319,7 @@ class Freshness:
                         if d.kind != "assign" or dv is None or d.path:
                             identity_unguarded = True
                             continue
-                        if isinstance(dv, ast.Call) and isinstance(dv.func, ast.Attribute) and dv.func.attr == "copy" and isinstance(dv.func.value, ast.Name) and dv.func.value.id == p:
-                            copies = True
-                            continue
-                        if isinstance(dv, ast.Call) and self.ctx.res.external_name(fi, dv) in ("numpy.array", "numpy.copy", "copy.deepcopy") and dv.args and isinstance(dv.args[0], ast.Name) and dv.args[0].id == p:
+                        if copies_name(lambda c_: self.ctx.res.external_name(fi, c_), dv, p):
                             copies = True
                             continue
                         if isinstance(dv, ast.Constant):
@@ -654,6 +689,8 @@ class Freshness:
             if m in COPY_METHODS or m in VIEW_METHODS or m in ("get", "items", "values", "keys", "pop", "setdefault"):
                 base = ev(f.value)
                 if base.kind in ("arr", "cont", "scalar"):
+                    if m == "astype" and (_kw_false_or_unknown(e, "copy") or len(e.args) > 1):
+                        return base  # astype(T, copy=False) may return the array itself
                     if m in COPY_METHODS:
                         if base.kind == "cont":
                             return AV("cont", "fresh", base.elems, why=f"{m}() of a container is shallow")
